@@ -16,6 +16,7 @@ func (v *Vue) evalAttributes(ctx VueContext, n *html.Node) (map[string]any, erro
 	}
 
 	results := map[string]any{}
+	var boundOrder []string // bound attribute names in source order
 
 	var newAttrs []html.Attribute
 
@@ -45,6 +46,9 @@ func (v *Vue) evalAttributes(ctx VueContext, n *html.Node) (map[string]any, erro
 			}
 			if !helpers.IsTruthy(boundValue) {
 				continue
+			}
+			if _, seen := results[boundName]; !seen {
+				boundOrder = append(boundOrder, boundName)
 			}
 			results[boundName] = boundValue
 		default:
@@ -370,21 +374,60 @@ func parseValue(s string) interface{} {
 
 // mergeStyles merges static and bound CSS styles, with bound values taking precedence.
 func (v *Vue) mergeStyles(staticStyle, boundStyle string) string {
-	// Parse both styles into maps
-	staticMap := parseStyleMap(staticStyle)
-	boundMap := parseStyleMap(boundStyle)
-
-	// Merge: bound values override static ones
-	for k, v := range boundMap {
-		staticMap[k] = v
+	// Static declarations keep their order; bound declarations override
+	// same-named static ones in place and new ones follow in their own order.
+	keys, values := parseStyleList(staticStyle)
+	boundKeys, boundValues := parseStyleList(boundStyle)
+	for i, k := range boundKeys {
+		replaced := false
+		for j := range keys {
+			if keys[j] == k {
+				values[j] = boundValues[i]
+				replaced = true
+				break
+			}
+		}
+		if !replaced {
+			keys = append(keys, k)
+			values = append(values, boundValues[i])
+		}
 	}
 
-	// Rebuild style string
 	var styles []string
-	for k, v := range staticMap {
-		styles = append(styles, k+":"+v+";")
+	for i, k := range keys {
+		styles = append(styles, k+":"+values[i]+";")
 	}
 	return strings.Join(styles, "")
+}
+
+// parseStyleList parses a style string into declarations in source order;
+// a repeated property keeps its first position and its last value.
+func parseStyleList(style string) (keys, values []string) {
+	for _, part := range strings.Split(style, ";") {
+		part = strings.TrimSpace(part)
+		if part == "" {
+			continue
+		}
+		kv := strings.SplitN(part, ":", 2)
+		if len(kv) != 2 {
+			continue
+		}
+		key := strings.TrimSpace(kv[0])
+		val := strings.TrimSpace(kv[1])
+		found := false
+		for i := range keys {
+			if keys[i] == key {
+				values[i] = val
+				found = true
+				break
+			}
+		}
+		if !found {
+			keys = append(keys, key)
+			values = append(values, val)
+		}
+	}
+	return keys, values
 }
 
 // parseStyleMap parses a CSS style string into a map of properties to values.
